@@ -74,7 +74,10 @@ func newRunner(o opt, capacity, U int) *runner {
 
 type storageCfg struct{}
 
-func (r *runner) close() { release(r.c); r.cancel() }
+// close releases the sweeps.  The construction context is deliberately NOT cancelled: the background ticker
+// (period one hour) just stays parked, so that a defect in the cancellation path (property C08's business)
+// cannot disturb the sequential checks.
+func (r *runner) close() { release(r.c); _ = r.cancel }
 
 // waitSweepers waits until no goroutine is inside (or about to enter) FifoMapCache.Sweep
 func waitSweepers() {
@@ -300,7 +303,9 @@ func main() {
 	case "C13":
 		alphabet = []string{"s1", "s2", "s3", "d1", "w", "r1", "r2", "r4", "r6", "x"}
 		L--
-	case "C02", "C03":
+	case "C03":
+		alphabet = []string{"s1", "s2", "s3", "s4", "d1", "w", "x"} // Clear restarts the insertion count
+	case "C02":
 		alphabet = []string{"s1", "s2", "s3", "s4", "d1", "d2", "w"}
 	default:
 		alphabet = []string{"s1", "s2", "s3", "d1", "d2", "w", "x"}
@@ -355,7 +360,7 @@ func main() {
 				prog = append(prog, "w")
 			case x < 84:
 				prog = append(prog, "o")
-			case x < 87 && *prop != "C03":
+			case x < 87:
 				prog = append(prog, "x")
 			case x < 93 && (*prop == "C13" || *prop == "C01"):
 				prog = append(prog, fmt.Sprintf("r%d", o.minimum+rng.Intn(2*capacity+3)))
